@@ -279,7 +279,19 @@ func (g *gen) name() (string, string) {
 	case x == 1:
 		return strings.Repeat("x", 300), "long-name"
 	default:
-		return namePool[g.rng.Intn(len(namePool))], "pool-name"
+		// names are exact strings: a case variant or a padded variant of a pool name
+		// is a DIFFERENT name (it may coexist with the plain one, and renaming to or
+		// from it must reserve and release exactly that string)
+		n := namePool[g.rng.Intn(len(namePool))]
+		switch x {
+		case 2:
+			return strings.ToUpper(n), "case-variant-name"
+		case 3:
+			return " " + n, "padded-name"
+		case 4:
+			return strings.ToUpper(n) + " ", "case-variant-padded-name"
+		}
+		return n, "pool-name"
 	}
 }
 
